@@ -470,7 +470,44 @@ def check_substitute(mtj, entries, with_pos, quiet_flag):
     return out, done > 0
 
 
+def check_file_history():
+    """One terminal file, used for a whole treebank: a short sentence for which an entry is out of range comes
+    first, then a longer sentence with the same sentence id (treebanks are processed section by section, ids
+    restart).  The longer sentence must get exactly what it gets when the same file content is used under a new
+    name for it alone."""
+    out = []
+    short = model.simple_mt((1, 2), sid=1)
+    long_ = model.simple_mt(((1, 2), 3, (4, 5)), sid=1)
+    for fname, with_pos in (('insert_terminals', True), ('substitute_terminals', False), ('substitute_terminals', True)):
+        entries = [(1, 2), (1, 4)]
+        results = []
+        for history in (True, False):
+            path = write_terminal_file(entries, with_pos)
+            try:
+                with contextlib.redirect_stdout(io.StringIO()), contextlib.redirect_stderr(io.StringIO()):
+                    if history:
+                        try:
+                            getattr(transform, fname)(build(short), terminalfile=path, quiet=True)
+                        except Exception:
+                            pass
+                    r = getattr(transform, fname)(build(long_), terminalfile=path, quiet=True)
+                results.append(model.mt_str(extract(r).root, extract(r).toks) if not monitor(r) else 'ill-formed: %s' % monitor(r))
+            except Exception as e:
+                results.append('%s: %s' % (type(e).__name__, e))
+            finally:
+                os.unlink(path)
+        if results[0] != results[1]:
+            out.append({'kind': 'file-history', 'where': fname, 'case': {'file_history': fname, 'with_pos': with_pos},
+                        'detail': 'entries %r: after a shorter sentence with the same id was processed with the same file the result is %s, '
+                                  'with the file used for this sentence alone %s' % (entries, results[0], results[1]),
+                        'what': '%s: result depends on sentences processed earlier with the same terminal file' % fname})
+    return out
+
+
 def check_case(case):
+    if 'file_history' in case:
+        with quiet():
+            return check_file_history()
     if 'clipipe' in case:
         from .. import clipipe
         return clipipe.replay(case)
@@ -521,6 +558,7 @@ def run_chunk(chunk):
                         vs, nt = check_punct(mt.to_json(), q)
                         take(vs, nt, ('inv', sym, model.shape_str(sh), q))
             res.sample({'punctuation_inventory_symbols': len(PUNCT), 'example': model.mt_str(mt.root, mt.toks)})
+            take(check_file_history(), True, ('file-history',))
         elif chunk['kind'] == 'delete':
             subsets = [s for r in range(0, n + 1) for s in itertools.combinations(range(n), r)]
             for sh, k in sweep.iter_shapes(chunk):
